@@ -923,7 +923,7 @@ namespace ser {
 using tbox::util::Serializer;
 using tbox::util::Deserializer;
 using tbox::util::Endian;
-enum { U8 = 1, U16, U32, U64, I8, I16, I32, I64, F32, F64, BYTES, POD, ENDIAN, SKIP, CHECK, NOCOPY, SETPOS, NCODES };
+enum { U8 = 1, U16, U32, U64, I8, I16, I32, I64, F32, F64, BYTES, POD, ENDIAN, SKIP, CHECK, NOCOPY, SETPOS, NEWMSG, NCODES };
 
 bool is_field(int c) { return c >= U8 && c <= POD; }
 size_t int_size(int c) { switch (c) { case U8: case I8: return 1; case U16: case I16: return 2; case U32: case I32: case F32: return 4; default: return 8; } }
@@ -939,7 +939,7 @@ uint64_t get_int(const uint8_t *p, size_t sz, bool big) {
 }
 
 struct Field { int code; uint64_t v; std::vector<uint8_t> blob; bool stream; bool written = false; };
-const char *kNames[] = {"cfg", "u8", "u16", "u32", "u64", "i8", "i16", "i32", "i64", "f32", "f64", "bytes", "pod", "endian", "skip", "check", "nocopy", "setpos"};
+const char *kNames[] = {"cfg", "u8", "u16", "u32", "u64", "i8", "i16", "i32", "i64", "f32", "f64", "bytes", "pod", "endian", "skip", "check", "nocopy", "setpos", "newmsg"};
 const char *def_name(int c) { return c >= 0 && c < NCODES ? kNames[c] : "?"; }
 
 // size argument for the size-only Deserializer calls: small / exactly what is left / one more / near SIZE_MAX
@@ -955,10 +955,12 @@ size_t pick_n(const Op &op, size_t remaining, bool &huge) {
   }
 }
 
-std::string run(const Scenario &s, CaseInfo &info) {
-  selftest();
-  Op cfg; size_t first = 0;
-  if (!s.ops.empty() && s.ops[0].code == CFG) { cfg = s.ops[0]; first = 1; }
+// One message = the ops [first, end).  `vecbuf` is the output vector of the vector back end; it lives across the messages
+// of a case (a send buffer re-used for the next message) and, for the first message, starts with generated content.
+// What the unmodified Serializer promises for a non-empty vector (serializer.cpp: extendSize resizes the vector to
+// pos_+need on EVERY append, pos_ starts at 0): from the first append call on, the vector holds exactly the bytes
+// serialised so far - size() == pos(), earlier content gone.  Before the first append call the vector is not touched.
+std::string run_message(const Scenario &s, const Op &cfg, size_t first, size_t end, size_t msg_index, std::vector<uint8_t> &vecbuf, CaseInfo &info) {
   bool big0 = cfg.in(0, 0, 1) == 0;
   bool vec_backend = cfg.in(1, 0, 1) == 1;
   int capmode = (int)cfg.in(2, 0, 4);
@@ -968,7 +970,7 @@ std::string run(const Scenario &s, CaseInfo &info) {
   // ---- build the field list and the size of the complete stream
   std::vector<Field> fields;      // parallel to ops (non-field ops get a placeholder)
   size_t total = 0, nops = 0;
-  for (size_t k = first; k < s.ops.size() && nops < 300; ++k, ++nops) {
+  for (size_t k = first; k < end && nops < 300; ++k, ++nops) {
     const Op &op = s.ops[k];
     Field f; f.code = op.code; f.v = 0; f.stream = false;
     if (op.code >= U8 && op.code <= F64) {
@@ -990,7 +992,29 @@ std::string run(const Scenario &s, CaseInfo &info) {
 
   // ---- serialise, comparing with the reference wire format after every call
   Blk rawbuf(vec_backend ? 0 : cap);
-  std::vector<uint8_t> vecbuf;
+  // raw back end: a dirty buffer; nothing beyond pos() may change (shadow copy), nothing beyond cap can (exact block)
+  std::vector<uint8_t> rawshadow;
+  if (!vec_backend) { rawshadow = lcg_bytes(cap, (uint32_t)cfg.in(8, 0, 1 << 20) + 17u * (uint32_t)msg_index); if (cap) memcpy(rawbuf.u8(), rawshadow.data(), cap); }
+  // vector back end: initial content of the first message's vector is generated; later messages re-use the vector as it is
+  if (vec_backend) {
+    if (msg_index == 0) {
+      size_t n0;
+      switch (cfg.in(6, 0, 5)) {
+        case 0: n0 = 0; break;
+        case 1: n0 = total / 2; break;                                  // shorter than the message
+        case 2: n0 = total; break;                                      // equal
+        case 3: n0 = total + extra; break;                              // a little longer
+        case 4: n0 = total + 64 + (size_t)cfg.in(8, 0, 200); break;     // much longer
+        default: n0 = total ? total - 1 : 0; break;
+      }
+      vecbuf = lcg_bytes(n0, (uint32_t)cfg.in(8, 0, 1 << 20) + 3);
+      switch (cfg.in(7, 0, 2)) { case 1: vecbuf.reserve(n0 + extra); break; case 2: vecbuf.reserve(n0 + total + 1000); break; default: vecbuf.shrink_to_fit(); break; }
+    } else info.cls("vector_reused_for_next_message");
+    info.cls(vecbuf.empty() ? "vector_initially_empty" : vecbuf.size() < total ? "vector_initially_shorter_than_message" : vecbuf.size() == total ? "vector_initially_equal_to_message" : "vector_initially_longer_than_message");
+    info.cls_if(vecbuf.capacity() > vecbuf.size(), "vector_capacity_larger_than_size");
+  } else info.cls("raw_dirty_buffer");
+  const size_t vec_initial = vecbuf.size();
+  bool append_called = false;
   std::unique_ptr<Serializer> sp(vec_backend ? new Serializer(vecbuf, big0 ? Endian::kBig : Endian::kLittle)
                                              : new Serializer(rawbuf.u8(), cap, big0 ? Endian::kBig : Endian::kLittle));
   Serializer &w = *sp;
@@ -1024,11 +1048,16 @@ std::string run(const Scenario &s, CaseInfo &info) {
       case BYTES: { Blk src(f.blob); ret = w.append(src.u8(), src.n); break; }
       case POD: { Blk src(f.blob); ret = w.appendPOD(src.u8(), src.n); break; }
     }
+    append_called = true;
     if (have_ret && ret != fits) return fmt("Serializer::append of field #%zu (%s, %zu bytes) at pos %zu with capacity %zu returned %s", k, def_name(f.code), fb.size(), exp.size(), cap, ret ? "true" : "false");
     if (fits) { exp.insert(exp.end(), fb.begin(), fb.end()); f.written = true; } else refused = true;
     if (w.pos() != exp.size()) return fmt("Serializer::pos()=%zu after field #%zu (%s), the fields accepted so far occupy %zu bytes (capacity %zu)", w.pos(), k, def_name(f.code), exp.size(), cap);
     const uint8_t *got = vec_backend ? vecbuf.data() : rawbuf.u8();
-    if (vec_backend && vecbuf.size() != exp.size()) return fmt("vector back end holds %zu bytes after field #%zu, expected %zu", vecbuf.size(), k, exp.size());
+    if (vec_backend && vecbuf.size() != exp.size())
+      return fmt("vector back end holds %zu bytes after field #%zu (%s) of message %zu, but pos()=%zu and the reference encoding of the fields appended so far has %zu bytes (the vector held %zu bytes before the message)",
+                 vecbuf.size(), k, def_name(f.code), msg_index, w.pos(), exp.size(), vec_initial);
+    if (!vec_backend && exp.size() < cap && memcmp(rawbuf.u8() + exp.size(), rawshadow.data() + exp.size(), cap - exp.size()))
+      return fmt("raw back end: bytes beyond pos()=%zu (capacity %zu) changed during field #%zu (%s)", exp.size(), cap, k, def_name(f.code));
     if (!exp.empty() && memcmp(got, exp.data(), exp.size()))
       return fmt("serialised bytes differ from the %s-endian wire format after field #%zu (%s value 0x%llx): got ..%s, expected ..%s", big ? "big" : "little", k, def_name(f.code), (unsigned long long)f.v,
                  hexs(got + (exp.size() - fb.size()), fb.size()).c_str(), hexs(fb).c_str());
@@ -1038,9 +1067,14 @@ std::string run(const Scenario &s, CaseInfo &info) {
   // ---- deserialise what was written, possibly truncated; expectations come from a reference reader of the same bytes
   size_t trunc = 0;
   switch (truncmode) { case 0: trunc = 0; break; case 1: trunc = exp.empty() ? 0 : 1; break; case 2: trunc = exp.empty() ? 0 : (size_t)cfg.in(5, 0, (int64_t)exp.size()); break; default: trunc = 0; }
-  size_t size = exp.size() - trunc;
+  // the deserializer reads the ACTUAL output: the whole vector (once an append call was made) / the raw buffer up to pos()
+  std::vector<uint8_t> produced;
+  if (vec_backend) { if (append_called) produced = vecbuf; }
+  else produced.assign(rawbuf.u8(), rawbuf.u8() + w.pos());
+  if (produced != exp) return fmt("message %zu: the output holds %zu bytes %s, the reference encoding of the accepted fields is %zu bytes %s", msg_index, produced.size(), hexs(produced).c_str(), exp.size(), hexs(exp).c_str());
+  size_t size = produced.size() - trunc;
   info.cls(trunc ? "deserializer_input_truncated" : "deserializer_input_complete");
-  Blk in(exp.data(), size);
+  Blk in(produced.data(), size);
   Deserializer r(in.u8(), size, big0 ? Endian::kBig : Endian::kLittle);
   if (r.size() != size || r.start() != in.u8()) return "Deserializer::size()/start() do not return the constructor arguments";
   size_t pos = 0; big = big0;
@@ -1112,18 +1146,42 @@ std::string run(const Scenario &s, CaseInfo &info) {
     if (r.pos() != pos) return fmt("Deserializer::pos()=%zu after field #%zu (%s), expected %zu (size %zu)", r.pos(), k, def_name(f.code), pos, size);
     if (r.ptr() != in.u8() + pos) return "Deserializer::ptr() != start()+pos()";
   }
+  // complete stream, every field fetched in order, no skip: nothing may be left over
+  if (!trunc && !moved && !failed_fetch && pos != size) return fmt("message %zu: %zu bytes are left in the output after all %zu-byte worth of fields were read back", msg_index, size - pos, pos);
   info.cls_if(failed_fetch, "deserializer_refused_a_field");
   info.cls_if(huge_seen, "size_argument_near_SIZE_MAX");
-  info.nontrivial = (!vec_backend && capmode <= 1 && total > 0) || (trunc > 0 && failed_fetch) || huge_seen;
+  bool stale = vec_backend && append_called && vec_initial > exp.size();
+  info.cls_if(stale, "vector_held_more_bytes_than_the_message_produces");
+  info.cls_if(stale && msg_index > 0, "vector_reused_long_then_short");
+  info.nontrivial |= (!vec_backend && capmode <= 1 && total > 0) || (trunc > 0 && failed_fetch) || huge_seen || stale;
+  return "";
+}
+
+std::string run(const Scenario &s, CaseInfo &info) {
+  selftest();
+  Op cfg; size_t first = 0;
+  if (!s.ops.empty() && s.ops[0].code == CFG) { cfg = s.ops[0]; first = 1; }
+  // `newmsg` ops split the case into up to 3 messages
+  std::vector<std::pair<size_t, size_t>> msgs;
+  size_t b = first;
+  for (size_t k = first; k < s.ops.size(); ++k)
+    if (s.ops[k].code == NEWMSG && msgs.size() < 2) { msgs.push_back({b, k}); b = k + 1; }
+  msgs.push_back({b, s.ops.size()});
+  info.cls(msgs.size() == 1 ? "messages_1" : msgs.size() == 2 ? "messages_2" : "messages_3");
+  std::vector<uint8_t> vecbuf;
+  for (size_t m = 0; m < msgs.size(); ++m) {
+    std::string e = run_message(s, cfg, msgs[m].first, msgs[m].second, m, vecbuf, info);
+    if (!e.empty()) return e;
+  }
   return "";
 }
 
 
 SubDef def = [] {
   SubDef d; d.name = "serializer";
-  d.op_names = {"cfg", "u8", "u16", "u32", "u64", "i8", "i16", "i32", "i64", "f32", "f64", "bytes", "pod", "endian", "skip", "check", "nocopy", "setpos"};
-  d.op_arity = {6, 2, 2, 2, 2, 2, 2, 2, 2, 2, 2, 2, 2, 2, 2, 2, 2, 2};
-  d.nt_rule = "raw back end at exactly sufficient or one-short capacity with at least one field, or a truncated stream on which a fetch is refused, or a size argument within 40 of SIZE_MAX (or SIZE_MAX/2) given to skip/checkSize/fetchNoCopy/set_pos";
+  d.op_names = {"cfg", "u8", "u16", "u32", "u64", "i8", "i16", "i32", "i64", "f32", "f64", "bytes", "pod", "endian", "skip", "check", "nocopy", "setpos", "newmsg"};
+  d.op_arity = {9, 2, 2, 2, 2, 2, 2, 2, 2, 2, 2, 2, 2, 2, 2, 2, 2, 2, 0};
+  d.nt_rule = "vector back end whose vector (generated initial content, or the previous message of the case) holds more bytes than the message produces, or raw back end at exactly sufficient or one-short capacity with at least one field, or a truncated stream on which a fetch is refused, or a size argument within 40 of SIZE_MAX (or SIZE_MAX/2) given to skip/checkSize/fetchNoCopy/set_pos";
   d.run = run;
 #ifndef VERIF_ENGINE_FUZZ
   d.gen = [] {
@@ -1136,9 +1194,11 @@ SubDef def = [] {
       {3, mkop(BYTES, {rc::gen::weightedOneOf<int64_t>({{4, range(0, 20)}, {1, range(0, 300)}}), range(0, 1 << 20)})},
       {2, mkop(POD, {range(1, 16), range(0, 1 << 20)})},
       {2, mkop(ENDIAN, {range(0, 1), api})},
-      {1, sizeop(SKIP)}, {1, sizeop(CHECK)}, {1, sizeop(NOCOPY)}, {1, sizeop(SETPOS)}});
-    auto cfg = mkop(CFG, {range(0, 1), rc::gen::weightedOneOf<int64_t>({{3, rc::gen::just<int64_t>(0)}, {1, rc::gen::just<int64_t>(1)}}),
-                          rc::gen::weightedOneOf<int64_t>({{3, rc::gen::just<int64_t>(0)}, {3, rc::gen::just<int64_t>(1)}, {1, range(2, 4)}}), range(1, 9), range(0, 2), range(0, 400)});
+      {1, sizeop(SKIP)}, {1, sizeop(CHECK)}, {1, sizeop(NOCOPY)}, {1, sizeop(SETPOS)},
+      {1, mkop(NEWMSG, {})}});
+    auto cfg = mkop(CFG, {range(0, 1), rc::gen::weightedOneOf<int64_t>({{3, rc::gen::just<int64_t>(0)}, {2, rc::gen::just<int64_t>(1)}}),
+                          rc::gen::weightedOneOf<int64_t>({{3, rc::gen::just<int64_t>(0)}, {3, rc::gen::just<int64_t>(1)}, {1, range(2, 4)}}), range(1, 9), range(0, 2), range(0, 400),
+                          range(0, 5), range(0, 2), range(0, 1 << 20)});
     return scenarioOf(fixedOps({cfg}), opsOf(opg));
   };
 #endif
